@@ -16,9 +16,9 @@ set_option linter.unusedVariables false
 whole number of minutes: the range keeps both points, its TIMEX is `(tx1,tx2,PT…H…M)` with the points' own TIMEX, an end
 before the start is taken on the next day, and the printed hours / minutes add up to end − start (`span_sound`). -/
 theorem time_range_unambiguous (s1 s2 : Slot) (r1 r2 : Res) (h1 : s1.res = some r1) (h2 : s2.res = some r2)
-    (c1 : r1.comment = []) (c2 : r2.comment = []) (padded : Bool)
+    (c1 : r1.comment = []) (c2 : r2.comment = []) (padded : Bool) (fl : Nat → Str) (secs : Bool)
     (hal : ((if r2.future.secs < r1.future.secs then r2.future.secs + 86400 else r2.future.secs) - r1.future.secs) % 60 = 0) :
-    mergeTwoTimePoints s1 s2 padded =
+    mergeTwoTimePoints s1 s2 padded fl secs =
       .ok { success := true,
             timex := [40] ++ s1.timex ++ [44] ++ s2.timex ++ [44] ++
               ([80, 84] ++
@@ -29,11 +29,31 @@ theorem time_range_unambiguous (s1 s2 : Slot) (r1 r2 : Res) (h1 : s1.res = some 
             comment := [], startS := r1.future.secs,
             endS := if r2.future.secs < r1.future.secs then r2.future.secs + 86400 else r2.future.secs } := by
   simp only [mergeTwoTimePoints, h1, h2, c1, c2, List.isEmpty_nil, Bool.not_true, Bool.false_and, Bool.false_eq_true, if_false,
-    spanHM_eq _ hal]
+    spanText_whole fl secs _ hal]
 
 /-- the printed span is end − start -/
 theorem time_range_span (diff : Nat) (h : diff % 60 = 0) : spanHours diff * 3600 + spanMinutes diff * 60 = diff :=
   span_sound diff h
+
+/-- The exact guard under which the duration part of the TIMEX is an integral `PT…H…M`, in the code as found: the span is
+a whole number of minutes. Otherwise the minutes are printed as the interpreter's float `diff / 60 % 60` (`fl diff`:
+`0.5`, `0.3333333333333144` — finding `timerange-float-minutes`). -/
+theorem time_range_duration_guard (fl : Nat → Str) (diff : Nat) :
+    (diff % 60 = 0 → spanText fl false diff =
+        [80, 84] ++ (if spanHours diff > 0 then decStr (spanHours diff) ++ [72] else []) ++
+          (if 0 < spanMinutes diff then decStr (spanMinutes diff) ++ [77] else [])) ∧
+    (diff % 60 ≠ 0 → spanText fl false diff =
+        [80, 84] ++ (if spanHours diff > 0 then decStr (spanHours diff) ++ [72] else []) ++ (fl diff ++ [77])) :=
+  ⟨spanText_whole fl false diff, spanText_float fl diff⟩
+
+/-- Repaired variant (integer minutes and a seconds component): for every span the duration is `PT[h H][m M][s S]` with
+`h·3600 + m·60 + s = end − start`, whatever the float arithmetic. -/
+theorem time_range_duration_repaired (fl : Nat → Str) (diff : Nat) :
+    spanText fl true diff = [80, 84] ++ (if spanHours diff > 0 then decStr (spanHours diff) ++ [72] else []) ++
+      ((if 0 < spanMinutes diff then decStr (spanMinutes diff) ++ [77] else []) ++
+       (if 0 < spanSeconds diff then decStr (spanSeconds diff) ++ [83] else [])) ∧
+    spanHours diff * 3600 + spanMinutes diff * 60 + spanSeconds diff = diff :=
+  ⟨spanText_secs fl diff, span_sound3 diff⟩
 
 /-- a range without the `ampm` comment resolves to exactly one value: its TIMEX, `start` and `end` as `hh:mm:ss` -/
 theorem time_range_resolution_plain (u : Uni) (timex : Str) (st en : Nat) :
